@@ -41,12 +41,14 @@ type world struct {
 	dials      atomic.Int64 // DialInternal calls
 	clients    map[string]*http.Client
 	docBody    string
+	nonce      string // identifies this world's handlers (who answers on the fixed plain-HTTP local port?)
 }
 
 func (w *world) marker(name string) http.Handler {
 	return http.HandlerFunc(func(rw http.ResponseWriter, r *http.Request) {
 		w.local.Add(1)
 		rw.Header().Set("X-Marker", name)
+		rw.Header().Set("X-World", w.nonce)
 		fmt.Fprintf(rw, "MARKER:%s:%s", name, r.URL.Path)
 	})
 }
@@ -67,6 +69,7 @@ func (l *oneConnListener) Addr() net.Addr { return &net.TCPAddr{IP: net.IPv4(127
 
 func newWorld(user, pass, kind string) (*world, error) {
 	w := &world{user: user, pass: pass, kind: kind, configured: user != "" && pass != "", clients: map[string]*http.Client{}}
+	w.nonce = fmt.Sprintf("%p", w)
 	lab, err := gwlab.New(gwlab.Config{
 		RootDomains: []string{root},
 		AdminUser:   user,
@@ -97,12 +100,19 @@ func newWorld(user, pass, kind string) (*world, error) {
 	for _, p := range []string{"h1", "h2", "h3"} {
 		w.clients[p] = lab.Client(p, root)
 	}
+	// the gateway also serves the apex router without TLS on a fixed loopback port
+	w.clients["local"] = &http.Client{Timeout: gwlab.Watchdog, CheckRedirect: func(*http.Request, []*http.Request) error { return http.ErrUseLastResponse },
+		Transport: &http.Transport{DisableKeepAlives: true, DialContext: func(ctx context.Context, _, _ string) (net.Conn, error) {
+			return (&net.Dialer{}).DialContext(ctx, "tcp", "127.0.0.1:9999")
+		}}}
 	return w, nil
 }
 
 func (w *world) close() {
-	for _, c := range w.clients {
-		gwlab.CloseClient(c)
+	for n, c := range w.clients {
+		if n != "local" {
+			gwlab.CloseClient(c)
+		}
 	}
 	w.lab.Close()
 }
@@ -231,13 +241,18 @@ type outcome struct {
 	body                   string
 	dLocal, dRemote, dDial int64
 	retries429             int
+	world                  string
 	err                    error
 }
 
 func (w *world) do(c reqCase) outcome {
 	var o outcome
 	for {
-		req, err := http.NewRequest(c.method, "https://"+root+c.path+c.query, nil)
+		scheme := "https://"
+		if c.proto == "local" {
+			scheme = "http://"
+		}
+		req, err := http.NewRequest(c.method, scheme+root+c.path+c.query, nil)
 		if err != nil {
 			o.err = err
 			return o
@@ -259,7 +274,7 @@ func (w *world) do(c reqCase) outcome {
 		}
 		b, _ := io.ReadAll(io.LimitReader(resp.Body, 1<<16))
 		resp.Body.Close()
-		o.status, o.body = resp.StatusCode, string(b)
+		o.status, o.body, o.world = resp.StatusCode, string(b), resp.Header.Get("X-World")
 		o.dLocal, o.dRemote, o.dDial = w.local.Load()-l0, w.remote.Load()-r0, w.dials.Load()-d0
 		if resp.StatusCode != http.StatusTooManyRequests {
 			return o
@@ -293,7 +308,7 @@ func randCred(rng *rand.Rand, allowColon bool) string {
 func main() {
 	r := ev.Start("C37", "exploration")
 	r.SetMaxSamples(8)
-	r.SetRule("requests to the apex router of real gateways (SNI = root domain) over {h1,h2,h3}: path class {prefix, mounted handler root/sub-path, unknown sub-path, debug, dot segments / encoded slashes / double slashes inside the prefix, case variants, leading dot segments, encoded spellings of the prefix} x method x credential form {none, right, wrong password (case flip, prefix, trailing space, ...), wrong user, empty password, empty user, both empty, swapped, Bearer, invalid base64, no colon, plaintext} x proxy headers {none, node address, node address + forwarded} x credential configuration {user+password, empty user, empty password, both empty}; a case is distinct by (configuration kind, protocol, path class, credential form, proxy-header form, status)")
+	r.SetRule("requests to the apex router of real gateways (SNI = root domain) over {h1,h2,h3} and, for the gateway that owns it, over the plain-HTTP loopback listener (no TLS state): path class {prefix, mounted handler root/sub-path, unknown sub-path, debug, dot segments / encoded slashes / double slashes inside the prefix, case variants, leading dot segments, encoded spellings of the prefix} x method x credential form {none, right, wrong password (case flip, prefix, trailing space, ...), wrong user, empty password, empty user, both empty, swapped, Bearer, invalid base64, no colon, plaintext} x proxy headers {none, node address, node address + forwarded} x credential configuration {user+password, empty user, empty password, both empty}; a case is distinct by (configuration kind, protocol, path class, credential form, proxy-header form, status)")
 	r.Assume("the 10 req/s limiter in front of the apex router answers 429 before anything else; such attempts are repeated (pacing sleep, no verdict depends on it)")
 	r.Assume("non-canonical spellings of the prefix (case variants, leading dot segments, encoded prefix) are judged only for 'no internal handler / dialer reached and no internal content returned'; canonical ones additionally for the exact status 401 (404 when credentials are not configured)")
 	rng := r.Rand("c37")
@@ -355,6 +370,7 @@ func main() {
 		o outcome
 	}
 	recs := make([][]rec, len(plans))
+	var localWorlds, localReqs atomic.Int64
 	var wg sync.WaitGroup
 	for i := range plans {
 		wg.Add(1)
@@ -368,8 +384,32 @@ func main() {
 					p.w.docBody = o.body
 				}
 			}
-			for _, c := range p.cases {
+			// the fixed local port belongs to one gateway of this machine at most: ours iff a mounted
+			// handler reached through it with the right credentials answers with this world's nonce
+			ownsLocal := false
+			if p.w.configured {
+				o := p.w.do(reqCase{proto: "local", method: "GET", path: "/_internal/chord/", authHdr: basic(p.w.user, p.w.pass)})
+				ownsLocal = o.err == nil && o.world == p.w.nonce
+			}
+			if ownsLocal {
+				localWorlds.Add(1)
+			}
+			for ci, c := range p.cases {
+				if ownsLocal && (ci%3 == 0 || c.forwarded) {
+					c.proto = "local"
+					localReqs.Add(1)
+				}
 				recs[i] = append(recs[i], rec{p.w, c, p.w.do(c)})
+				if ownsLocal && c.proto != "local" {
+					// the same request once more without TLS, marked as already relayed by another node
+					c2 := c
+					c2.proto, c2.forwarded = "local", true
+					if c2.proxyNode == "" {
+						c2.proxyNode = "10.0.0.7:443"
+					}
+					localReqs.Add(1)
+					recs[i] = append(recs[i], rec{p.w, c2, p.w.do(c2)})
+				}
 			}
 		}(i)
 	}
@@ -380,6 +420,8 @@ func main() {
 		}
 		plans[i].w.close()
 	}
+	r.Count("worlds_owning_the_plain_loopback_listener", localWorlds.Load())
+	r.Count("requests_over_the_plain_loopback_listener", localReqs.Load())
 	r.Finish()
 }
 
